@@ -34,7 +34,7 @@ def load_corpus(pid):
 
 
 HOOK_COMMITS = ["29e0810", "739e797", "cf39cf9", "652b91e", "e71d18b", "87e24fd", "a0b177c", "d307356", "a2cf7a8", "32ea923",
-                "c3212bb", "2017279", "f82d6ac", "f4f6e91", "3d9871e", "eae7527", "430b815", "50578be", "8cabe9e", "dbfd1e8", "b5be554", "2061294", "5e81022", "fbbe690", "b82c48c", "4e87dc5", "3e170f4", "f5496c2", "34204b1"]
+                "c3212bb", "2017279", "f82d6ac", "f4f6e91", "3d9871e", "eae7527", "430b815", "50578be", "8cabe9e", "dbfd1e8", "b5be554", "2061294", "5e81022", "fbbe690", "b82c48c", "4e87dc5", "3e170f4", "f5496c2", "34204b1", "16e84c8"]
 NOT_CLAIMED = {}
 
 
@@ -2168,6 +2168,14 @@ class C15(SimpleSpec):
             fid = classify_panic(case, detail)
             out.append({"what": f"cargo-vet crashed instead of refusing or skipping: {detail[:160]} (faults: {[f['kind'] for f in faults]})",
                         "finding": fid})
+        # the same store through the real `cargo vet check` (Store::acquire -> go_online -> validate as the commands call them)
+        real = o.get("real_check")
+        if isinstance(real, str):
+            if real.startswith("panic:") and c != "panics":
+                out.append(f"the real `cargo vet check{' --locked' if case.get('mode') == 'locked' else ''}` crashed on a store the loader "
+                           f"refuses or accepts without crashing: {real[:200]} (faults: {[f['kind'] for f in faults]})")
+            if c == "refused" and not (o.get("obs", "").startswith("(outcome refused online")) and real == "ok":
+                out.append(f"the loader refuses this store ({o.get('obs')}) but the real `cargo vet check` went ahead and succeeded")
         locked = case.get("mode") == "locked"
         used = lambda s: (not locked) if s == "SCriteriaMap" else (locked if s in ("SLockAudit", "SLockWildcard") else True)  # noqa
         if c == "proceeds":
